@@ -211,8 +211,8 @@ def denote(spec, rows):
         return out + [0]
     if k in ("IrregularlyBin", "Stack"):
         ths = [-INF] + list(spec["edges"])
-        if ths[1:] != sorted(ths[1:]):
-            raise Unsupported("unsorted thresholds")
+        if k == "IrregularlyBin" and ths[1:] != sorted(ths[1:]):
+            raise Unsupported("unsorted edges")     # (Stack fills every threshold q reaches, in any order)
         fth = [t if isinf(t) else Fraction(t) for t in ths]
         parts = [[] for _ in range(len(ths) + 1)]
         for d, w in rows:
